@@ -21,3 +21,4 @@ import SkyllhModel.Props.C11
 import SkyllhModel.Props.C16
 import SkyllhModel.Props.C07
 import SkyllhModel.Props.C18
+import SkyllhModel.Props.C14
